@@ -114,7 +114,11 @@ func dumpExpr(e parser.Expression) string {
 	case parser.SliceEvaluation:
 		return fmt.Sprintf("(sliceeval %s %s %s)", dumpExpr(v.Value()), dumpExpr(v.Index()), dumpVT(v.ValueType()))
 	case parser.StringSubscript:
-		return fmt.Sprintf("(substr %s %s %s)", dumpExpr(v.Value()), dumpExpr(v.StartIndex()), dumpExpr(v.EndIndex()))
+		end := "nil" // a single index s[i] has no end-index of its own
+		if v.HasEndIndex() {
+			end = dumpExpr(v.EndIndex())
+		}
+		return fmt.Sprintf("(substr %s %s %s)", dumpExpr(v.Value()), dumpExpr(v.StartIndex()), end)
 	case parser.Len:
 		return "(len " + dumpExpr(v.Expression()) + ")"
 	case parser.Itoa:
